@@ -174,6 +174,20 @@ def side_doors(run, rng):
     if "activeCovSubscriptions" in props:
         return fail("property-added-to-one-object-shows-on-another", object=("device", 6), property="activeCovSubscriptions", through="ReadPropertyMultiple all")
     run.count("added_property_sessions")
+    # 2b. an ordinary object's identifier is read-only: whatever identifier is written, the refusal says so
+    for new in (("analogValue", 7), (rng.choice(["binaryValue", "device", "multiStateValue"]), rng.randrange(1, 9))):
+        hist.append(("write objectIdentifier of an ordinary object", ("analogValue", 2), new))
+        req = WritePropertyRequest(objectIdentifier=("analogValue", 2), propertyIdentifier="objectIdentifier", destination=dev.address)
+        req.propertyValue = Any()
+        req.propertyValue.cast_in(ObjectIdentifier(new))
+        ans = client.call(req)
+        run.count("writes")
+        run.count("writes_refused")
+        got = (str(ans.errorClass), str(ans.errorCode)) if isinstance(ans, ErrorPDU) else type(ans).__name__
+        if got != ("property", "writeAccessDenied"):
+            return fail("write-to-read-only-property-not-refused-as-such", property="objectIdentifier", written=new, answer=got)
+        if rp(dev, ("analogValue", 2), "objectIdentifier")[0] != "value":
+            return fail("refused-write-changed-the-device", object=("analogValue", 2))
 
     # 3. objects whose identifier may be written: a number of its own type that nobody has - anything else is refused and
     #    leaves the device as it was
